@@ -316,6 +316,8 @@ def obligations(tier, seed):
         for n in (79, 80, 100):
             out.append(ob('C07/flowspec/%s/comp=5/long-rule/n=%d' % (d, n), 'ob_flowspec',
                           {'dir': d, 'comp': 5, 'expr': '|'.join('=%d' % (1000 + i) for i in range(n))}))
+        out.append(ob('C07/flowspec/%s/comp=5/long-rule/n=80/then-second-rule' % d, 'ob_flowspec',
+                      {'dir': d, 'comp': 5, 'expr': '|'.join('=%d' % (1000 + i) for i in range(80)), 'second': True}))
         out.append(ob('C07/flowspec/%s/two-rules' % d, 'ob_flowspec', {'dir': d, 'comp': 1, 'plen': 24, 'second': True}))
     out.append(ob('C07/flowspec/reach/nexthop', 'ob_flowspec', {'dir': 'reach', 'comp': 1, 'plen': 24, 'nexthop': '10.0.0.9'}))
     return out
